@@ -20,8 +20,8 @@ use crate::{
         format::format_part,
         offset::{add_offset_to_dn, remove_offset_from_dn},
         parse::{
-            parse_format_string, parse_offset, parse_part, ParseUnit, ParsedDate, ParsedTime,
-            Period,
+            escaped_text, parse_format_string, parse_offset, parse_part, remove_part, ParseUnit,
+            ParsedDate, ParsedTime, Period,
         },
         time::{
             convert::{
@@ -359,13 +359,13 @@ impl DateTime {
         for part in parts {
             // Escaped apostrophes
             if part.starts_with('\u{0000}') {
-                string.replace_range(0..part.len(), "");
+                remove_part(part.chars().count(), &mut string)?;
                 continue;
             }
 
             // Escaped parts
             if part.starts_with('\'') {
-                string.replace_range(0..part.len() - if part.ends_with('\'') { 2 } else { 1 }, "");
+                remove_part(escaped_text(&part).chars().count(), &mut string)?;
                 continue;
             }
 
@@ -547,8 +547,8 @@ impl DateTime {
 
                 // Escape parts starting with apostrophe
                 if part.starts_with('\'') {
-                    let part = part.replace('\u{0000}', "'");
-                    return part[1..part.len() - usize::from(part.ends_with('\''))]
+                    return escaped_text(part)
+                        .replace('\u{0000}', "'")
                         .chars()
                         .collect::<Vec<char>>();
                 }
